@@ -320,6 +320,14 @@ where
                 a_ri.push(Scalar::from(offset_value.shr(i_u32) & 1) - Scalar::ONE);
             }
         }
+        #[cfg(bpp_verif)]
+        crate::verif_hooks::after_bit_decomposition(
+            &mut a_li,
+            &mut a_ri,
+            &witness.openings.iter().map(|o| o.v).collect::<Vec<u64>>(),
+            &statement.minimum_value_promises,
+            bit_length,
+        );
 
         // Compute A by multi-scalar multiplication
         let mut alpha = Zeroizing::new(Vec::with_capacity(extension_degree));
